@@ -25,8 +25,21 @@ before (other residues, classes, atoms, restraints): the diagnostics of the last
 Numerical parameters are written in every spelling of the free format; which tokens are numbers is decided by the
 format (NUM_RE), not by the implementation — a parameter that is reported as an atom is a false warning
 (implementation vs spec only: the split of parameters from atom names is upstream of the Lean model).
-A diverging case is minimised (one restraint, shortest history, plain read form) before it is reported; one report per
-class of divergence.
+Physical layout: a restraint stands in the file as SHELXL allows — wrapped with '=' behind any token (also directly behind
+the keyword; two to four physical lines), several blanks between tokens, blanks behind the '=', and a '!' comment behind the
+'=' of any wrapped line and behind the last line; the comment may contain whatever the instruction syntax itself uses ('='
+anywhere, also as its last character, '!', '$', '<', '>', '_*', names of atoms that do not exist, keywords). RESI cards and
+atom lines carry such comments too (`remarks`). The logical line the expectation is computed from is checked against the
+specification of the layout (C05 `norm` of the physical lines, evaluated by the driver); the model starts at the physical
+lines as well (Lean `assignLines`: C05's model of the continuation loop, split, Restraint.__init__, check, set(), sort()),
+theorem layout_warnings_eq_missing. A systematic part (`layout_grid`: wrap shapes x comment kinds x absent token on the
+first / a middle / the last physical line) runs in every tier; 30 % of the random restraints of all streams are laid out.
+Names: one pool of five names per case, pools of names that are easy to confuse (C1A C1B C1C C1' C1"; C1 C10 C11; C1 N1 O1;
+C9 C09 C009; CA CA1 CAB ...). Absent atoms: none, one, two, three or all of the addressed (NAME, residue) pairs at once;
+the same name more than once in a restraint (bare, _n, _*, other case). `confusable_grid` (every pool x addressing form x
+none / single / pairs / all of the five names absent) runs in every tier.
+A diverging case is minimised (one restraint, shortest history, plain read form, plain layout) before it is reported; one
+report per class of divergence.
 The generator's own by-construction expectation (which pair was left out) is asserted against the spec as well
 (a disagreement there is a harness error, exit 2).
 """
@@ -48,9 +61,18 @@ KEYWORDS = {
 }
 
 
+_KW_CACHE = {}
+
+
 def restraint_keywords():
     """the keywords `_parse_cards` appends to `shx.restraints`, read off the source of the tree under test; a keyword
     this table does not know yet is generated with no numeric parameter"""
+    if 'kw' not in _KW_CACHE:
+        _KW_CACHE['kw'] = _restraint_keywords()
+    return _KW_CACHE['kw']
+
+
+def _restraint_keywords():
     src = (core.REPO / 'shelxfile' / 'shelx' / 'shelx.py').read_text()
     found = re.findall(r'_append_card\(\s*self\.restraints\s*,\s*([A-Za-z_]\w*)\s*\(', src)
     kws = dict(KEYWORDS)
@@ -189,14 +211,14 @@ def lay_out(rng, line, shape=None, comment=None, last_comment=None):
     parts = [toks[a:b] for a, b in zip([0] + cuts, cuts + [len(toks)])]
     out = []
     for i, part in enumerate(parts):
-        sep = rng.choice([' ', ' ', '  ', '   '])
+        sep = rng.choice([' ', ' ', ' ', '  ', '   ', '\t', ' \t '])
         text = ('' if i == 0 else ' ' * rng.choice([1, 2, 3, 5])) + sep.join(part)
         if i < len(parts) - 1:
             c = rng.choice(COMMENTS) if comment is None else comment
-            text += rng.choice([' ', ' ', '  ']) + '=' + rng.choice(['', '', ' ', '  ']) + ('!' + c if c else '')
+            text += rng.choice([' ', ' ', ' ', '  ', '\t', '']) + '=' + rng.choice(['', '', ' ', '  ', '\t']) + ('!' + c if c else '')
         else:
             c = rng.choice(COMMENTS[:1] * 3 + COMMENTS) if last_comment is None else last_comment
-            text += (rng.choice([' ', '  ', '']) + '!' + c if c else rng.choice(['', '', ' ']))
+            text += (rng.choice([' ', '  ', '', '\t']) + '!' + c if c else rng.choice(['', '', ' ', '\t', '  ']))
         out.append(text)
     return out
 
@@ -490,6 +512,24 @@ def minimise(ctx, case, want_prop):
         c = dict(case, layout=None)
         if still(c):
             case = c
+    if case.get('layout') and any(case['layout']):
+        # drop the comments one by one, then the blanks that are not needed
+        for i, lines in enumerate(case['layout']):
+            for k in range(len(lines or [])):
+                for simpler in (case['layout'][i][k].split('!')[0].rstrip(), ' '.join(case['layout'][i][k].split('!')[0].split())):
+                    if k and not simpler.startswith(' '):
+                        simpler = ' ' + simpler
+                    if simpler == case['layout'][i][k]:
+                        continue
+                    lay = [list(l) if l else l for l in case['layout']]
+                    lay[i][k] = simpler
+                    c = dict(case, layout=lay)
+                    try:
+                        ok = still(c)
+                    except Exception:       # the simpler text is no valid layout any more
+                        ok = False
+                    if ok:
+                        case = c
     if not case.get('layout'):
         case = {k: v for k, v in case.items() if k != 'layout'}
     if case.get('remarks'):
@@ -826,6 +866,22 @@ def residue_layouts(rng, thorough):
     return out
 
 
+_LAYOUT_SHAPES = [(0, 0)] + [(nres, ncls) for nres in range(1, 6) for ncls in range(1, 4) if ncls <= nres]
+
+
+def random_layout(rng):
+    """one of the structures of residue_layouts (0..5 residues of 1..3 classes), drawn directly"""
+    nres, ncls = rng.choice(_LAYOUT_SHAPES)
+    if not nres:
+        return []
+    nums = rng.sample(NUMBERS, nres)
+    cls = rng.sample(CLASSES + [''], ncls)
+    assign = [cls[i % ncls] for i in range(nres)]
+    if rng.random() < 0.5:
+        rng.shuffle(assign)
+    return [(assign[i], nums[i]) for i in range(nres)]
+
+
 def kw_modes(resis, rng):
     nums = [n for _, n in resis]
     classes = sorted({c for c, _ in resis if c})
@@ -986,8 +1042,7 @@ def confusable_grid(rng, thorough):
 
 def random_case(rng):
     KEYWORDS, _ = restraint_keywords()
-    layouts = residue_layouts(rng, False)
-    resis = list(rng.choice(layouts))
+    resis = random_layout(rng)
     if resis and rng.random() < 0.25:
         # a residue continued in a second block further down (registered twice under the same number)
         resis.append(rng.choice(resis))
@@ -1118,16 +1173,21 @@ CORPUS = [
 def run(ctx):
     ctx.rule = ('generated files: residue 0 plus 0..5 RESI blocks of 1..3 classes (one may be the empty class), atoms C1 N2 O3A C14B N5; '
                 '1..3 restraints of 13 keywords x keyword suffix (none, _0, _n existing, _n not existing, _CLASS known/unknown, _*) x '
-                'token patterns (bare, _n, _0, _*, $E, <, >, _$n); every addressed atom present or exactly one absent; case variants of '
+                'token patterns (bare, _n, _0, _*, $E, <, >, _$n, the same name repeated); every addressed atom present, or one, two, three or all of the addressed (NAME, residue) pairs absent; '
+                'names from one of 8 pools of five (pairwise different; or differing in one character only: C1A C1B C1C C1\' C1", C1 C10 C11, C1 N1 O1, C9 C09 C009 ...); '
+                'restraints as one line or wrapped with = behind any token (2..4 physical lines) with ! comments behind the = and behind the last line '
+                '(comments containing =, !, $, <, >, names of absent atoms, keywords), ! comments on RESI and atom lines; case variants of '
                 'names, classes and keywords; numerical parameters in every spelling of the free format (sign, .5, 2., zero padding, e/E exponents); atom names NAN / INF; read through read_string / read_file / reload, also on an object that has read 1..2 other structures before; histories of 1..6 '
                 'steps (evaluate, look-up, del atoms[id], Atom.delete, rename, add_atom, atom.resi = ...) followed by a new evaluation; '
-                'distinct by (blocks, restraint lines, history, read form); non-trivial = some token addresses residues other '
+                'distinct by (blocks, restraint lines, physical layout, comments, history, read form); non-trivial = some token addresses residues other '
                 'than [0] or an atom is missing, and for histories at least one edit')
     ctx.assumptions = ['keyword carries at most one "_"; residue numbers on atoms are written without leading zeros (wfTok); '
                        'atom names carry no "_" (wfFile); ASCII', 'all residues = the residues defined by RESI cards (number > 0); '
                        'residue 0 is addressed only by default or by _0 (this is what tests/test_restraints.py fixes for NAME_*)',
                        'a RESI card without class is registered by the code under the class name RESI; no generated restraint uses that class',
-                       'histories: the residue registry is not edited; restraints stay as parsed']
+                       'histories: the residue registry is not edited; restraints stay as parsed',
+                       'layout: blanks and tabs between tokens, continuation lines start with a blank, '
+                       'no text other than a ! comment behind the = (C05.norm is the specification; the harness asserts it on every generated layout)']
     thorough = ctx.tier == 'thorough'
     level = 2 if thorough else 1 if ctx.escalated else 0        # escalated: the anchored sources differ from model_map.json
     _, in_source = restraint_keywords()
@@ -1143,7 +1203,7 @@ def run(ctx):
         g = g[:[1200, 6000][level]]
     else:
         ctx.exhaustive = True
-        ctx.extra['grid'] = f'{len(g)} files: layouts x keyword modes x {len(TOKEN_PATTERNS)} token patterns x fill x (present | each single absence, up to 12)'
+        ctx.extra['grid'] = f'{len(g)} files: layouts x keyword modes x {len(TOKEN_PATTERNS)} token patterns x fill x (present | each single absence, up to 12 | two | three | all absent), names from 8 pools'
     cases += g
     kc = list(keyword_cross(ctx.rng, thorough))
     if not thorough:
